@@ -274,6 +274,8 @@ def cat_is(rel, cat):
 
 
 def model_line(model, rel):
+    if hasattr(rel.line, "expand"):
+        return rel.line.expand(lambda e: model.eval(e, model_completion=True))
     n = model.eval(rel.line.n, model_completion=True).as_long()
     return bytes(model.eval(rel.line.bytes[i], model_completion=True).as_long() for i in range(min(n, rel.N)))
 
@@ -285,7 +287,12 @@ def real_outcome(cfg, line):
 
 def concrete_eval(rel, ref, line):
     """category (and fields) the encoding assigns to a concrete line, and the reference verdict"""
-    sub = [(rel.line.bytes[i], z3.BitVecVal(line[i] if i < len(line) else 0, 8)) for i in range(rel.N)] + [(rel.line.n, T.pos(len(line)))]
+    if hasattr(rel.line, "concrete_subst"):
+        sub = rel.line.concrete_subst(line)
+        if sub is None:
+            return None, None, None
+    else:
+        sub = [(rel.line.bytes[i], z3.BitVecVal(line[i] if i < len(line) else 0, 8)) for i in range(rel.N)] + [(rel.line.n, T.pos(len(line)))]
     ev = lambda e: z3.simplify(z3.substitute(e, *sub))
     cat = None
     for p in rel.paths:
@@ -330,10 +337,39 @@ def corpus(seed):
     return [l for l in out]
 
 
+def gap_corpus(seed):
+    """long concrete lines for the gap model: sentences whose payload (or another field) contains a long run of one character"""
+    import random
+    from ms import nmea_line
+    rnd = random.Random(seed + 91)
+    out = []
+    for k in (0, 1, 5, 40, 60, 100, 383, 384, 385, 500, 2000):
+        for ch in ("w", "G", ":", "`", "k"):
+            out.append(nmea_line(1, 1, None, "1" + ch * k + "0", 0))
+            out.append(nmea_line(2, 1, 3, ch * k + "5", 2))
+            out.append(nmea_line(1, 1, None, ch * k, 0, good_checksum=False))
+        out.append(nmea_line(1, 1, None, "1" + "w" * k, 0).replace(b",A,", b",A" + b"w" * k + b","))       # long channel field
+        out.append(nmea_line(1, 1, None, "15", 0)[:-3] + b"W" * k + b"*00")                              # run before the '*'
+        out.append(b"\\s:" + b"k" * k + b"*00\\" + nmea_line(1, 1, None, "15", 0))                         # run inside a tag block
+        out.append(nmea_line(1, 1, None, "15", 0) + b"w" * k)                                             # trailing run
+    # mutate a few
+    muts = []
+    for l in out[:40]:
+        b = bytearray(l)
+        if b:
+            i = rnd.randrange(len(b))
+            b[i] = rnd.choice(b",*!0A\\w")
+            muts.append(bytes(b))
+    return out + muts
+
+
 def translator_validation(res, rel, ref, seed):
     t0 = time.time()
     bad = n = 0
-    lines = [l for l in corpus(seed) if len(l) <= rel.N]
+    if hasattr(rel.line, "concrete_subst"):
+        lines = [l for l in gap_corpus(seed) if rel.line.concrete_subst(l) is not None]
+    else:
+        lines = [l for l in corpus(seed) if len(l) <= rel.N]
     script = []
     for l in lines:
         script += ["N", (False, l)]
@@ -341,6 +377,8 @@ def translator_validation(res, rel, ref, seed):
     for l, o in zip(lines, outs):
         real = parse_out(o)
         cat, wf, ck = concrete_eval(rel, ref, l)
+        if cat is None and wf is None:
+            continue
         rc = {"C": A_ACCEPT, "I": A_ACCEPT, "P": A_PANIC}.get(real["kind"], A_CHECKSUM if real.get("sub") == "checksum" else A_REJECT)
         # accepted by layer T but rejected later by the fragment logic counts as accepted here
         if real["kind"] == "E" and real.get("sub") == "nmea" and cat == A_ACCEPT:
